@@ -208,6 +208,37 @@ def dtypes(case):
   return {'evals': evals, 'nontrivial': True, 'outcome': [c, ldt]}
 
 
+def ce_infinite(case):
+  """Cross-entropy of an example whose TARGET class has probability 0 (a -inf logit on the true label, e.g. an
+  out-of-vocabulary mask hitting it, or finite scores whose gap overflows float32) is +inf - the worst prediction must not
+  score as a perfect one. (A -inf logit on a NON-target class is outside the domain: the library returns NaN there.)"""
+  import jax.numpy as jnp
+  ninf = -np.inf
+  evals = 0
+  cls_rows = [(0, [ninf, 0.0, 1.0]), (2, [0.5, 0.0, ninf]), (0, [-3e38, 3e38, 0.0]), (1, [0.0, 0.0, 0.0])]
+  for t, pred in cls_rows:
+    m = mr.build({'name': 'CrossEntropyLoss'})
+    st = m.evaluate_example({'y': jnp.asarray(np.int32(t))}, jnp.asarray(np.asarray(pred, np.float32)))
+    got = float(np.asarray(st.result()))
+    want = float(-(np.asarray(pred, np.float64)[t] - np.log(np.sum(np.exp(np.asarray(pred, np.float64) - np.max(pred)))) - np.max(pred))) \
+        if np.isfinite(pred[t]) and abs(pred[t]) < 1e38 else np.inf
+    require((np.isinf(want) and got == np.inf) or (np.isfinite(want) and abs(got - want) <= 1e-5 * (1 + abs(want))),
+            'CrossEntropyLoss of target %d under scores %r' % (t, pred), want, got, case={'row': [t, core.jsonable(pred)]})
+    evals += 1
+  seq_rows = [([1, 2], [[0.0, ninf, 1.0], [0.0, 1.0, 2.0]]), ([2, 1], [[0.0, 1.0, 2.0], [3e38, -3e38, 0.0]])]
+  for y, pred in seq_rows:
+    for spec in ({'name': 'SequenceTokenCrossEntropyLoss', 'masked_target_values': []},
+                 {'name': 'SequenceTokenCrossEntropyLoss', 'masked_target_values': [], 'per_position': True},
+                 {'name': 'SequenceCrossEntropyLoss', 'masked_target_values': []}):
+      st = mr.build(spec).evaluate_example({'y': jnp.asarray(np.asarray(y, np.int32))}, jnp.asarray(np.asarray(pred, np.float32)))
+      got = np.asarray(st.result(), np.float64)
+      require(bool(np.any(got == np.inf)) and not bool(np.any(np.isnan(got))) and not bool(np.any(got == -np.inf)),
+              '%s: a sequence with a probability-0 target token must have infinite loss' % spec['name'], 'inf', got.tolist(),
+              case={'spec': spec, 'row': [y, core.jsonable(pred)]})
+      evals += 1
+  return {'evals': evals, 'nontrivial': True, 'outcome': evals}
+
+
 def protocol(case):
   """Metric objects as Python values: copies / pickles / replace() of a metric are equal to it, hash alike and compute the
   same statistic; two metrics of the family that compare EQUAL must have the same definition (the jitted evaluation is
@@ -341,8 +372,8 @@ def replaced(case):
   return {'evals': 3, 'nontrivial': True, 'outcome': [spec['name'], field]}
 
 
-SUBS = {'grid': grid, 'identities': identities, 'dtypes': dtypes, 'protocol': protocol, 'jit_path': jit_path, 'replaced': replaced}
-TIMEOUTS = {'grid': 600, 'identities': 300, 'dtypes': 600, 'protocol': 600, 'jit_path': 900, 'replaced': 600}
+SUBS = {'grid': grid, 'identities': identities, 'dtypes': dtypes, 'protocol': protocol, 'ce_infinite': ce_infinite, 'jit_path': jit_path, 'replaced': replaced}
+TIMEOUTS = {'grid': 600, 'identities': 300, 'dtypes': 600, 'protocol': 600, 'ce_infinite': 300, 'jit_path': 900, 'replaced': 600}
 
 
 def decode_case(case):
@@ -423,6 +454,7 @@ def plan(ctx):
   ctx.pmap('grid', cases, chunk=4)
   ctx.run('identities', [{'C': 2}, {'C': 3}, {'C': 4}])
   ctx.run('protocol', [{'family': 'cls'}, {'family': 'seq'}])
+  ctx.run('ce_infinite', [{}])
   ctx.pmap('dtypes', [{'C': c, 'label_dtype': d, 'int_scores': c == 3} for c in (3, 20, 62, 130)
                       for d in ('uint8', 'int8', 'int16', 'uint16', 'int32') if c - 1 <= np.iinfo(d).max], chunk=2)
   lm3 = [None, [0.0, 0.0, '-inf'], ['-inf', 0.0, 0.0], [0.0, '-inf', 0.0], [0.0, 0.0, -1e9], [1.0, 0.0, -1.0]]
